@@ -275,6 +275,15 @@ impl LightClientProtocol {
 
     fn check_verifiable_header(&self, verifiable_header: &VerifiableHeader) -> Result<(), Status> {
         let header = verifiable_header.header();
+        // The total difficulty is the sum of two peer-supplied values.
+        if !verifiable_header.is_total_difficulty_computable() {
+            let errmsg = format!(
+                "total difficulty overflows for block#{}, hash: {:#x}",
+                header.number(),
+                header.hash()
+            );
+            return Err(StatusCode::InvalidChainRoot.with_context(errmsg));
+        }
         // Check PoW
         if !self.consensus.pow_engine().verify(&header.data()) {
             let errmsg = format!(
